@@ -74,22 +74,15 @@ Theorem run_gap_free cfg st0 ops st tr :
     o1 < o2 /\ (mid = [] -> o2 = o1 + 1) /\ (forall x, o1 < x < o2 -> covered x mid).
 Proof.
   intros H K l1 o1 p1 mid o2 p2 l2 E. pose proof (run_chain _ _ _ _ _ H K) as Hc. rewrite E in Hc.
-  apply kchain_suffix in Hc. apply kchain_from_app in Hc as [Hm Hr]. cbn [kchain_from] in Hr.
+  apply kchain_suffix in Hc. apply kchain_from_app in Hc as [Hm Hr]. cbn [kchain_from ok_next] in Hr.
   destruct Hr as [Hr _]. fold (lastd (KFwd o1 p1) mid) in Hr.
-  assert (Hnr : lastd (KFwd o1 p1) mid <> KRes).
-  { unfold lastd. destruct (last_opt mid) as [b|] eqn:El; [|discriminate].
-    apply (kchain_from_nores _ _ Hm); [discriminate|]. clear -El. induction mid as [|x m IH]; [discriminate|].
-    destruct m; [inversion El; now left|right; now apply IH]. }
-  assert (Hr' : o2 = nxt (lastd (KFwd o1 p1) mid)).
-  { destruct (lastd (KFwd o1 p1) mid); cbn [ok_next] in Hr; try exact Hr. now exfalso; apply Hnr. }
-  clear Hr. rename Hr' into Hr.
   assert (Hge : nxt (KFwd o1 p1) <= nxt (lastd (KFwd o1 p1) mid)).
   { unfold lastd. destruct (last_opt mid) as [b|] eqn:El; [|lia].
-    apply (kchain_from_mono _ _ Hm). clear -El. induction mid as [|x m IH]; [discriminate|].
+    apply (kchain_from_mono _ _ Hm eq_refl). clear -El. induction mid as [|x m IH]; [discriminate|].
     destruct m; [inversion El; now left|right; now apply IH]. }
   cbn [nxt] in Hge. split; [lia|]. split.
   - intros ->. unfold lastd in Hr. cbn [last_opt nxt] in Hr. exact Hr.
-  - intros x Hx. apply (kchain_from_covered _ _ Hm); [discriminate|cbn [nxt]; lia|]. fold (lastd (KFwd o1 p1) mid). lia.
+  - intros x Hx. apply (kchain_from_covered _ _ Hm); [cbn [nxt]; lia|]. fold (lastd (KFwd o1 p1) mid). lia.
 Qed.
 
 (** (c) *)
@@ -98,22 +91,29 @@ Theorem run_starts_after_subscribe cfg st0 ops st tr :
   forall K l1 e l2, ktrace K tr = l1 ++ KSub e :: l2 ->
     (forall off p, In (KFwd off p) l2 -> e <= off) /\
     (forall b l3, l2 = b :: l3 ->
-       match b with KFwd off _ => off = e | KJump from to => from = e /\ e <= to | KSub e' => e <= e' | KRes => False end).
+       match b with KFwd off _ => off = e | KJump from to => from = e /\ e <= to | KSub e' => e <= e'
+                  | KRes _ _ => False | KEnd _ _ _ => False end).
 Proof.
   intros H K l1 e l2 E. pose proof (run_chain _ _ _ _ _ H K) as Hc. rewrite E in Hc. apply kchain_suffix in Hc.
   split.
-  - intros off p Hin. apply (kchain_from_fwd_ge _ _ Hc _ _ Hin).
-  - intros b l3 ->. cbn [kchain_from] in Hc. destruct Hc as [Hc _]. destruct b; cbn [ok_next nxt] in Hc; [exact Hc|split; lia|exact Hc|exact Hc].
+  - intros off p Hin. apply (kchain_from_fwd_ge _ _ Hc eq_refl _ _ Hin).
+  - intros b l3 ->. cbn [kchain_from] in Hc. destruct Hc as [Hc _]. destruct b; cbn [ok_next nxt is_res] in Hc; try exact Hc.
+    destruct Hc as [-> X]. split; [reflexivity|]. now apply X.
 Qed.
 
 (** the first event of every key is a subscribe marker or a resume marker; a resume marker is
-    only followed by resume markers, sweeps and later re-subscriptions, never preceded by anything *)
+    never preceded by anything *)
 Theorem run_key_head cfg st0 ops st tr :
-  run_hyps cfg st0 ops st tr -> forall K a l, ktrace K tr = a :: l -> a = KRes \/ exists e, a = KSub e.
-Proof. intros H. apply (di_head _ _ _ (rn_di _ _ (run_hyps_inv _ _ _ _ _ H))). Qed.
+  run_hyps cfg st0 ops st tr ->
+  forall K a l, ktrace K tr = a :: l -> (exists cl c0, a = KRes cl c0) \/ exists e, a = KSub e.
+Proof.
+  intros H K a l E. destruct (di_head _ _ _ (rn_di _ _ (run_hyps_inv _ _ _ _ _ H)) K a l E) as [Hr | He]; [left|now right].
+  destruct a; try discriminate. eauto.
+Qed.
 
-(** (d) *)
-Theorem run_complete cfg st0 ops st tr :
+(** (d), general form: from ANY event of the key, everything up to the end of the log is accounted
+    for by the later events *)
+Theorem run_complete_gen cfg st0 ops st tr :
   run_hyps cfg st0 ops st tr -> 1 <= cf_max_outgoing cfg ->
   quiescent st (owed_run st0 [] ops) ->
   forall id c o, slab_get (r_conns st) id = Some c -> slab_get (r_obufs st) id = Some o ->
@@ -122,11 +122,12 @@ Theorem run_complete cfg st0 ops st tr :
     nget (r_datalog st) i = Some d /\ In (id, rq) (d_waiters d) /\ dr_filter rq = f /\ dr_idx rq = i /\
     (dr_group rq = None ->
      snd (dr_cursor rq) = end_of (d_log d) /\
-     (exists a l, ktrace (o_link o, f, i) tr = a :: l /\ (a = KRes \/ exists e, a = KSub e)) /\
-     forall l1 e l2, ktrace (o_link o, f, i) tr = l1 ++ KSub e :: l2 ->
-       forall x, e <= x < end_of (d_log d) -> covered x l2).
+     (exists a l, ktrace (o_link o, f, i) tr = a :: l /\ ((exists cl c0, a = KRes cl c0) \/ exists e, a = KSub e)) /\
+     forall l1 a l2, ktrace (o_link o, f, i) tr = l1 ++ a :: l2 ->
+       forall x, nxt a <= x < end_of (d_log d) -> covered x l2).
 Proof.
   intros H Hmo Hq id c o Hc Ho f Hf. pose proof (run_hyps_inv _ _ _ _ _ H) as [_ _ _ HDI].
+  pose proof (run_key_head _ _ _ _ _ H) as Hhd.
   destruct H as (Hcfg & Hlt & Hi & Hwf & Hr & HB). pose proof (run_d_run _ _ _ _ Hr) as Hr'.
   destruct (complete_quiescent cfg st0 ops st Hcfg (conj Hmo Hlt) Hi Hwf Hr' HB Hq id c Hc)
     as (t & a & _ & _ & _ & _ & _ & Hsubs).
@@ -137,16 +138,32 @@ Proof.
   split.
   { pose proof (di_ne _ _ _ HDI id o rq Ho Hh Hg) as Hne. rewrite Hk in Hne.
     destruct (ktrace (o_link o, f, i) tr) as [|a0 l0] eqn:E; [contradiction|]. exists a0, l0. split; [reflexivity|].
-    eapply (di_head _ _ _ HDI); exact E. }
-  intros l1 e l2 E x Hx.
-  assert (Hl : last_opt (ktrace (key_of o rq) tr) = Some (lastd (KSub e) l2)).
+    eapply Hhd; exact E. }
+  intros l1 a0 l2 E x Hx.
+  assert (Hl : last_opt (ktrace (key_of o rq) tr) = Some (lastd a0 l2)).
   { rewrite Hk, E, last_opt_app_ne by discriminate. apply last_opt_cons_lastd. }
   pose proof (di_chain _ _ _ HDI (o_link o, f, i)) as Hch. rewrite E in Hch. apply kchain_suffix in Hch.
-  destruct (di_cur _ _ _ HDI id o rq _ Ho Hh Hg Hl) as [Hres | [Hcur _]].
-  { exfalso. unfold lastd in Hres. destruct (last_opt l2) as [b|] eqn:El; [|discriminate]. subst b.
-    apply (kchain_from_nores _ _ Hch ltac:(discriminate) KRes); [|reflexivity].
-    clear -El. induction l2 as [|y m IH]; [discriminate|]. destruct m; [inversion El; now left|right; now apply IH]. }
-  apply (kchain_from_covered _ _ Hch); [discriminate|cbn [nxt]; lia|]. fold (lastd (KSub e) l2). lia.
+  destruct (di_cur _ _ _ HDI id o rq _ Ho Hh Hg Hl) as [Hcur _].
+  apply (kchain_from_covered _ _ Hch); [lia|]. fold (lastd a0 l2). lia.
+Qed.
+
+Theorem run_complete cfg st0 ops st tr :
+  run_hyps cfg st0 ops st tr -> 1 <= cf_max_outgoing cfg ->
+  quiescent st (owed_run st0 [] ops) ->
+  forall id c o, slab_get (r_conns st) id = Some c -> slab_get (r_obufs st) id = Some o ->
+  forall f, set_mem str_eqb f (c_subs c) = true ->
+  exists i d rq,
+    nget (r_datalog st) i = Some d /\ In (id, rq) (d_waiters d) /\ dr_filter rq = f /\ dr_idx rq = i /\
+    (dr_group rq = None ->
+     snd (dr_cursor rq) = end_of (d_log d) /\
+     (exists a l, ktrace (o_link o, f, i) tr = a :: l /\ ((exists cl c0, a = KRes cl c0) \/ exists e, a = KSub e)) /\
+     forall l1 e l2, ktrace (o_link o, f, i) tr = l1 ++ KSub e :: l2 ->
+       forall x, e <= x < end_of (d_log d) -> covered x l2).
+Proof.
+  intros H Hmo Hq id c o Hc Ho f Hf.
+  destruct (run_complete_gen _ _ _ _ _ H Hmo Hq id c o Hc Ho f Hf) as (i & d & rq & A1 & A2 & A3 & A4 & A5).
+  exists i, d, rq. repeat (split; [assumption|]). intros Hg. destruct (A5 Hg) as (B1 & B2 & B3).
+  split; [exact B1|]. split; [exact B2|]. intros l1 e l2 E x Hx. exact (B3 l1 (KSub e) l2 E x Hx).
 Qed.
 
 (** without a re-subscription after the marker, "accounted for" means forwarded or evicted *)
@@ -235,19 +252,19 @@ Qed.
     non-shared request of the tracker the new connection starts with (a restored session) *)
 Lemma conn_ghost_res st' client link id' K a :
   In (id', K, a) (conn_ghost st' client link) ->
-  a = KRes /\ al_get str_eqb client (r_cmap st') = Some id' /\
+  al_get str_eqb client (r_cmap st') = Some id' /\
   exists o t rq, slab_get (r_obufs st') id' = Some o /\ o_link o = link /\
                  slab_get (r_trackers st') id' = Some t /\ In rq (tr_reqs t) /\ dr_group rq = None /\
-                 K = (link, dr_filter rq, dr_idx rq).
+                 K = (link, dr_filter rq, dr_idx rq) /\ a = KRes client (snd (dr_cursor rq)).
 Proof.
   unfold conn_ghost. destruct (al_get str_eqb client (r_cmap st')) as [id|] eqn:Ec; [|intros []].
   destruct (slab_get (r_obufs st') id) as [o|] eqn:Eo; [|intros []].
   destruct (slab_get (r_trackers st') id) as [t|] eqn:Et; [|intros []].
   destruct (N.eqb_spec (o_link o) link) as [El | _]; [|intros []].
   intros Hin. apply in_map_iff in Hin as (rq & E & Hrq). inversion E; subst. apply filter_In in Hrq as [Hrq Hu].
-  split; [reflexivity|]. split; [reflexivity|]. exists o, t, rq.
+  split; [reflexivity|]. exists o, t, rq.
   split; [exact Eo|]. split; [reflexivity|]. split; [exact Et|]. split; [exact Hrq|].
-  split; [|reflexivity]. unfold unshared_b in Hu. destruct (dr_group rq); [discriminate|reflexivity].
+  split; [|split; reflexivity]. unfold unshared_b in Hu. destruct (dr_group rq); [discriminate|reflexivity].
 Qed.
 
 (** a [KSub] is emitted by [prepare_filter] for a non-shared filter the connection does not hold
@@ -294,7 +311,8 @@ Theorem c01_run_starts_after_subscribe_thm : forall K l1 e l2,
   ktrace K tr = l1 ++ KSub e :: l2 ->
   (forall off p, In (KFwd off p) l2 -> e <= off) /\
   (forall b l3, l2 = b :: l3 ->
-     match b with KFwd off _ => off = e | KJump from to => from = e /\ e <= to | KSub e' => e <= e' | KRes => False end).
+     match b with KFwd off _ => off = e | KJump from to => from = e /\ e <= to | KSub e' => e <= e'
+                | KRes _ _ => False | KEnd _ _ _ => False end).
 Proof. exact (run_starts_after_subscribe _ _ _ _ _ H). Qed.
 
 Theorem c01_run_complete_thm :
@@ -305,12 +323,26 @@ Theorem c01_run_complete_thm :
     nget (r_datalog st) i = Some d /\ In (id, rq) (d_waiters d) /\ dr_filter rq = f /\ dr_idx rq = i /\
     (dr_group rq = None ->
      snd (dr_cursor rq) = end_of (d_log d) /\
-     (exists a l, ktrace (o_link o, f, i) tr = a :: l /\ (a = KRes \/ exists e, a = KSub e)) /\
+     (exists a l, ktrace (o_link o, f, i) tr = a :: l /\ ((exists cl c0, a = KRes cl c0) \/ exists e, a = KSub e)) /\
      forall l1 e l2, ktrace (o_link o, f, i) tr = l1 ++ KSub e :: l2 ->
        forall x, e <= x < end_of (d_log d) -> covered x l2).
 Proof. exact (run_complete _ _ _ _ _ H). Qed.
 
-Theorem c01_run_key_head_thm : forall K a l, ktrace K tr = a :: l -> a = KRes \/ exists e, a = KSub e.
+Theorem c01_run_complete_gen_thm :
+  1 <= cf_max_outgoing cfg -> quiescent st (owed_run st0 [] ops) ->
+  forall id c o, slab_get (r_conns st) id = Some c -> slab_get (r_obufs st) id = Some o ->
+  forall f, set_mem str_eqb f (c_subs c) = true ->
+  exists i d rq,
+    nget (r_datalog st) i = Some d /\ In (id, rq) (d_waiters d) /\ dr_filter rq = f /\ dr_idx rq = i /\
+    (dr_group rq = None ->
+     snd (dr_cursor rq) = end_of (d_log d) /\
+     (exists a l, ktrace (o_link o, f, i) tr = a :: l /\ ((exists cl c0, a = KRes cl c0) \/ exists e, a = KSub e)) /\
+     forall l1 a l2, ktrace (o_link o, f, i) tr = l1 ++ a :: l2 ->
+       forall x, nxt a <= x < end_of (d_log d) -> covered x l2).
+Proof. exact (run_complete_gen _ _ _ _ _ H). Qed.
+
+Theorem c01_run_key_head_thm : forall K a l,
+  ktrace K tr = a :: l -> (exists cl c0, a = KRes cl c0) \/ exists e, a = KSub e.
 Proof. exact (run_key_head _ _ _ _ _ H). Qed.
 
 Theorem c01_run_event_owner_thm : forall id k f i a c o,
